@@ -125,6 +125,7 @@ theorem mem_register_indVars {c : Coll} {name : String} {d : Def} {z : String} :
   | plain => show z ∈ c.indVars ↔ _; simp
   | link deps => show z ∈ c.indVars ↔ _; simp
   | pop m s => show z ∈ c.indVars ↔ _; simp
+  | param ded => show z ∈ c.indVars ↔ _; simp
 
 /-- everything `setItem` does, whatever the outcome -/
 theorem setItem_spec (c : Coll) (name : String) (d : Def) (h : NoDup c) (hg : Good c) :
